@@ -41,7 +41,8 @@ def main():
     # ---- 1. Coq build -------------------------------------------------------------------
     cone = vlib.coq_cone(mod.PROP_FILES)
     t0 = time.time()
-    cb = vlib.build_coq()
+    vlib.regenerate_gen()          # so that the cone is computed on current generated files
+    cb = vlib.build_coq(only=cone)
     failed_in_cone = [f for f in cb.failed_files if f in cone]
     # a failure outside the cone does not concern this property
     total, done, names = vlib.count_obligations(cone, failed_in_cone)
